@@ -185,7 +185,7 @@ func (e *Engine) getSingle(fr *Frame, c *Ctx, node IfaceV, tok StrV) Value {
 					continue
 				}
 				inb := And(sa.G, Ult(BV(64, uint64(n)), sa.Len))
-				el := c.S.Heap[sa.Obj].Val.(ArrayV).E[sa.Off+n]
+				el := e.arr(c, sa.Obj).E[sa.Off+n]
 				r = mergeV(inb, okT(u.Elem(), el), r)
 			}
 			add(g, r)
@@ -244,7 +244,7 @@ func installReflect(e *Engine) {
 		sl := a[1].(SliceV).Alts[0]
 		var args []Value
 		if sl.Obj != -1 {
-			arr := c.S.Heap[sl.Obj].Val.(ArrayV)
+			arr := e.arr(c, sl.Obj)
 			for i := 0; i < int(sl.Len.val); i++ {
 				args = append(args, arr.E[sl.Off+i])
 			}
